@@ -265,3 +265,9 @@ Theorem b_star_normal n X Y : (0 < n)%nat ->
       Qltb (Qminb (Qabs a) (Qminb (Qabs c) (Qabs d))) cv_eps = false -> ~ a * d - c * c == 0 ->
       normal_eq n (b_star n 2 X Y) X Y).
 Proof. intros Hn. split; [now apply b_star_1_normal|now apply b_star_2_normal]. Qed.
+
+(* several pricings on one engine: each uses exactly its own paths, whatever the previous pricing left behind *)
+Theorem price_seq_own_paths : forall ps prev, Forall (fun p => length (p_init p) = p_n p) ps ->
+  price_seq prev ps = map (fun p => map (std_row (p_payoff p) (p_path p) (p_df p) (p_notional p)) (seq 0 (p_n p))) ps.
+Proof. induction ps as [|p r IH]; intros prev H; [reflexivity|]. inversion H as [|? ? Hp Hr]; subst. simpl.
+  unfold reprice at 1. rewrite (engine_rows _ _ _ _ _ _ Hp). f_equal. apply IH. exact Hr. Qed.
